@@ -170,11 +170,14 @@ def scenarios():
     S = {}
 
     def add(name, run, target, outputs=None, cost="cheap", pathtypes=("str", ),
-            needs_inputs=False, prepare=None):
+            needs_inputs=False, prepare=None, bystanders=()):
+        # bystanders: existing files with neighbouring names that are not
+        # the output; they are there in every initial state and may never
+        # change
         S[name] = {"run": run, "target": target, "cost": cost,
                    "outputs": outputs or (lambda t: [t]),
                    "pathtypes": pathtypes, "needs_inputs": needs_inputs,
-                   "prepare": prepare}
+                   "prepare": prepare, "bystanders": tuple(bystanders)}
 
     add("writer:tum", _writer(lambda t, w: fi.write_tum_trajectory_file(
         t, _traj(), confirm_overwrite=w)), "out.tum",
@@ -208,7 +211,17 @@ def scenarios():
     add("writer:plot-noext", _writer(lambda t, w: _figs().export(
         str(t), confirm_overwrite=w)), "plotsx",
         outputs=lambda t: ["plotsx_first.png", "plotsx_second.png"],
-        cost="plot")
+        cost="plot", bystanders=("plotsx", "plotsx.png"))
+
+    def export_default_pdf(t, w):
+        import matplotlib as mpl
+        with mpl.rc_context({"savefig.format": "pdf"}):
+            _figs().export(str(t), confirm_overwrite=w)
+    # the same with matplotlib's default format set to pdf (matplotlibrc):
+    # one PDF under the given name; the file asked about is the file written
+    add("writer:plot-noext-pdf", _writer(export_default_pdf), "plotsy",
+        cost="plot", bystanders=("plotsy.pdf", "plotsy_first.pdf",
+                                 "plotsy.png"))
     add("writer:serialize", _writer(lambda t, w: _figs().serialize(
         str(t), confirm_overwrite=w)), "plots.pickle", cost="plot")
 
@@ -380,6 +393,9 @@ def run_history(name, pathtype, initial, history, wd=None):
         # zero-length existing files are existing files
         for o in outputs:
             open(os.path.join(wd, o), "wb").close()
+    for o in S["bystanders"]:
+        with open(os.path.join(wd, o), "wb") as f:
+            f.write(OLD + b" (bystander)")
     msgs, labels = [], []
     extra = EXTRA_PROMPT_TARGET.get(name)
     for step, (answer, warn) in enumerate(history):
